@@ -188,12 +188,16 @@ func run(t *testing.T, cs caseSpec, onLeak func(string)) (res result) {
 	e2.Run(t, func(w *e2.World) {
 		w.OnLeak = onLeak
 		x := &exec{w: w, cs: cs, acceptedCh: make(chan struct{}, 4), listenedCh: make(chan struct{}, 4), peerSys: 0x60000000}
+		caseT4 := time.Duration(t4)
+		if cs.State == "inbound-half" {
+			caseT4 = 45 * time.Second // the default: block 2 follows well inside T4 — it is the connection, not the timer, that ends block 1
+		}
 		slowHandler := func(m *hsms.DataMessage, _ hsms.SECS2Endpoint) {
 			if cs.State == "close-slow-handler" && m.Stream() == 5 {
 				time.Sleep(slowFor) // a slow (not a blocked) handler: it returns
 			}
 		}
-		x.n = e2s1.New(w, e2s1.Opts{Active: cs.Active, Equip: cs.Equip, Device: device, Retry: retry, T1: t1, T2: t2, T4: t4, OnData: slowHandler,
+		x.n = e2s1.New(w, e2s1.Opts{Active: cs.Active, Equip: cs.Equip, Device: device, Retry: retry, T1: t1, T2: t2, T4: caseT4, OnData: slowHandler,
 			Conn:  []hsms.ConnOption{hsms.WithT3(cT3), hsms.WithT5(cT5), hsms.WithReconnectBackoff(100*time.Millisecond, 2), hsms.WithCloseTimeout(closeTimeout)},
 			Extra: []secs1.Option{secs1.WithDialer(x.dial), secs1.WithListener(x.listen)}})
 		defer func() {
